@@ -110,8 +110,11 @@ void HttpServer::serve(Socket client)
 					if (range.startsWith("bytes=") && !range.contains(',')) // no multiple ranges
 					{
 						Array<String> parts = range.substr(6).split('-');
-						int begin = parts[0];
-						int end = parts.length() > 1 ? (int)parts[1] : 0; // "bytes=5" has no second part
+						Long first = parts[0];
+						Long last = parts.length() > 1 ? (Long)parts[1] : 0; // "bytes=5" has no second part
+						// a position that does not fit an int is beyond any file served here: unsatisfiable, not taken modulo 2^32
+						int begin = first > 2147483647 ? 2147483647 : (int)first;
+						int end = last > 2147483647 ? 2147483647 : (int)last;
 						response.setCode(206);
 						response.setHeader("Content-Range", "+");
 						response.putFile(file.path(), begin, end);
